@@ -20,7 +20,6 @@ package store
 
 import (
 	"encoding/json"
-	"errors"
 	"fmt"
 	"github.com/nuts-foundation/go-did/vc"
 	"gorm.io/gorm"
@@ -67,15 +66,25 @@ func (l CredentialPropertyRecord) TableName() string {
 type CredentialStore struct {
 }
 
+// RejectedError is returned by Store when the credential itself can't be stored (as opposed to a database failure),
+// e.g. because another credential with the same ID is already stored. Trying again won't help.
+type RejectedError struct {
+	msg string
+}
+
+func (e RejectedError) Error() string {
+	return e.msg
+}
+
 // Store stores a Verifiable Credential in the SQL database.
 func (c CredentialStore) Store(db *gorm.DB, credential vc.VerifiableCredential) (*CredentialRecord, error) {
 	if credential.ID == nil {
 		// credentials received from other parties (e.g. through a Discovery Service) are not validated before they are stored
-		return nil, errors.New("credential has no ID")
+		return nil, RejectedError{msg: "credential has no ID"}
 	}
 	subjectDID, err := credential.SubjectDID()
 	if err != nil {
-		return nil, fmt.Errorf("failed to extract subject DID: %w", err)
+		return nil, RejectedError{msg: fmt.Sprintf("failed to extract subject DID: %s", err)}
 	}
 	// Base properties
 	newCredential := CredentialRecord{
@@ -94,7 +103,7 @@ func (c CredentialStore) Store(db *gorm.DB, credential vc.VerifiableCredential) 
 	}
 	// Create key-value properties of the credential subject, which is then stored in the property table for searching.
 	if len(credential.CredentialSubject) != 1 {
-		return nil, fmt.Errorf("expected exactly one credential subject, got %d", len(credential.CredentialSubject))
+		return nil, RejectedError{msg: fmt.Sprintf("expected exactly one credential subject, got %d", len(credential.CredentialSubject))}
 	}
 	credentialSubjectJSON, err := json.Marshal(credential.CredentialSubject[0])
 	if err != nil {
@@ -125,7 +134,7 @@ func (c CredentialStore) Store(db *gorm.DB, credential vc.VerifiableCredential) 
 	// compare with all whitespace and linebreaks removed
 	// todo: replace with correct canonicalization from VC spec, once it's available. Should be implemented in go-did.
 	if stripWhitespaceAndLinebreaks(existingCredential.Raw) != stripWhitespaceAndLinebreaks(newCredential.Raw) {
-		return nil, fmt.Errorf("credential with this ID already exists with different contents: %s", newCredential.ID)
+		return nil, RejectedError{msg: fmt.Sprintf("credential with this ID already exists with different contents: %s", newCredential.ID)}
 	}
 	return &newCredential, nil
 }
